@@ -421,11 +421,41 @@ def shards(tier, seed):
     cells = (sorted(GRID, key=lambda c: c[0] != "rule") + [("rule", "bad-utf8", True), ("rule", "bad-utf8", True)]) * b["grid_reps"]
     for k, cell in enumerate(cells):
         out[(k + seed) % 16]["grid"].append(list(cell) + [k])
-    return out
+    return [{"kind": "two-transformers", "points": 24 if tier == "quick" else 400}] + out
+
+
+DD_TWO = "defectdojo:python/avoid-insecure-deserialization"
+
+
+def two_transformer_plan():
+    """The one shipped pipeline with two transformers (yaml, then pickle): the victim holds a site of each, so a fault
+    in the second transformer comes after the first one has already changed the tree."""
+    _, sast = engine.seeds_for(DD_TWO)
+    yaml_fx = [x for x in sast if "yaml" in x["code"] and "pickle" not in x["code"]]
+    pickle_fx = [x for x in sast if "pickle" in x["code"] and "yaml" not in x["code"]]
+    if not yaml_fx or not pickle_fx:
+        return None
+    both = [{"code": yaml_fx[0]["code"], "results": yaml_fx[0]["results"], "ops": [["wrap", "def"]]},
+            {"code": pickle_fx[0]["code"], "results": pickle_fx[0]["results"], "ops": [["wrap", "def"]]}]
+    other = {"codemod": DD_TWO, "parts": [{"code": yaml_fx[0]["code"], "results": yaml_fx[0]["results"], "ops": []}], "file_ops": []}
+    return {"pipeline": "sast", "codemods": [DD_TWO], "files": [other, {"codemod": DD_TWO, "parts": both, "file_ops": []}, copy.deepcopy(other)],
+            "victim": 1, "fault": "visit-raises", "j": 1, "workers": 1, "inline": False}
 
 
 def run_shard(spec):
     stats = core.Stats()
+    if spec.get("kind") == "two-transformers":
+        plan = two_transformer_plan()
+        if plan is None:
+            stats.discard("no-two-transformer-fixtures")
+            return stats
+        n = count_nodes(plan)
+        stats.labels["two-transformer-enumerations"] += 1
+        # every `step`-th visited node up to the last one: both transformers' visits are covered
+        step = max(1, n // spec["points"])
+        for j in range(1, n + 1, step):
+            eval_plan(plan, stats, j_override=j)
+        return stats
     enum_left = [spec["enumerate"]]
 
     def fn(c):
